@@ -12,14 +12,20 @@
        hold addresses of function records; function records hold a code address into a compiled
        module's executable.
    Where the two engines differ the model keeps the FEWER visible edges (wazevo's functionInstance
-   has no pointer to its instance; the interpreter's GlobalInstance has no pointer to its engine).
+   has no pointer to its instance). One edge is a parameter of the instantiation: an exported GLOBAL
+   object may point to the module engine of its exporter (wazero: GlobalInstance.Me, set by buildGlobals
+   when the engine owns the globals: wazevo yes, interpreter no) - `g_me`. It is the only edge from an
+   instance that imports nothing but a global to the exporter of that global.
+   The value of a funcref global is a raw reference to a function record of SOME instance: the exporter's
+   own function when an immutable global (kind KGlobalC: no operation writes it) was initialised with
+   ref.func, anybody's when a mutable global was written by an importer (F35).
    o_owner = Some c marks an object that only c points to (private table/global of instance c,
    function record of module engine c).
    gc collects everything not visibly reachable from the roots (host handles ++ in-flight calls). *)
 From Coq Require Import List ZArith Bool Arith.
 Import ListNotations.
 
-Inductive kind := KRuntime | KCache | KEngine | KCompiled | KInstance | KModEng | KFunc | KTable | KGlobal.
+Inductive kind := KRuntime | KCache | KEngine | KCompiled | KInstance | KModEng | KFunc | KTable | KGlobal | KGlobalC.
 
 Record obj := mkObj {
   o_kind : kind;
@@ -42,9 +48,12 @@ Definition roots (s : state) : list nat := host s ++ flight s.
 Definition kind_eqb (a b : kind) : bool :=
   match a, b with
   | KRuntime, KRuntime | KCache, KCache | KEngine, KEngine | KCompiled, KCompiled | KInstance, KInstance
-  | KModEng, KModEng | KFunc, KFunc | KTable, KTable | KGlobal, KGlobal => true
+  | KModEng, KModEng | KFunc, KFunc | KTable, KTable | KGlobal, KGlobal | KGlobalC, KGlobalC => true
   | _, _ => false
   end.
+
+(* objects whose raw slots some operation may overwrite: tables and MUTABLE globals *)
+Definition writable (k : kind) : bool := match k with KTable | KGlobal => true | _ => false end.
 
 Definition memb (x : nat) (l : list nat) : bool := existsb (Nat.eqb x) l.
 Definition remove_nat (x : nat) (l : list nat) : list nat := filter (fun y => negb (Nat.eqb x y)) l.
@@ -142,16 +151,35 @@ Fixpoint alloc_exported (s : state) (i : nat) (n size : nat) : state * list nat 
       (s3, t :: ts)
   end.
 
-(* exported globals: a GlobalInstance the instance points to; nothing points back (interpreter; wazevo's
-   GlobalInstance.Me is the only extra edge and the model keeps the fewer) *)
-Fixpoint alloc_globals (s : state) (i : nat) (n : nat) : state * list nat :=
-  match n with
-  | O => (s, [])
-  | S m =>
-      let '(s1, g) := alloc s (mkObj KGlobal [] [] [None] None [] true false) in
-      let s2 := add_vis s1 i g in
-      let '(s3, gs) := alloc_globals s2 i m in
-      (s3, g :: gs)
+(* exported funcref globals. g_mut: mutable; g_init: the constant initialiser; g_me: the GlobalInstance points to the
+   exporter's module engine (GlobalInstance.Me) *)
+Inductive ginit :=
+| GNull                (* ref.null *)
+| GFunc (f : nat)      (* ref.func of record f of the same module: validation of constant expressions *)
+| GGet (q : nat).      (* global.get of the q-th imported global, which must be immutable *)
+Record gspec := mkG { g_mut : bool; g_init : ginit; g_me : bool }.
+Definition ginit_null (g : ginit) : bool := match g with GNull => true | _ => false end.
+
+(* the value of a constant initialiser: recs = the function records of the new module engine, gimp = the global objects
+   it imports *)
+Definition ginit_val (s : state) (recs gimp : list nat) (g : ginit) : option nat :=
+  match g with
+  | GNull => None
+  | GFunc f => if f <? length recs then Some (nth f recs 0) else None
+  | GGet q => if (q <? length gimp) && kind_eqb (o_kind (getd s (nth q gimp 0))) KGlobalC
+              then nth 0 (o_slots (getd s (nth q gimp 0))) None else None
+  end.
+
+(* exported globals: a GlobalInstance the instance i points to; it points back to the module engine me iff g_me *)
+Fixpoint alloc_globals (s : state) (i me : nat) (recs gimp : list nat) (gs : list gspec) : state * list nat :=
+  match gs with
+  | [] => (s, [])
+  | g :: r =>
+      let '(s1, x) := alloc s (mkObj (if g_mut g then KGlobal else KGlobalC) (if g_me g then [me] else []) []
+                                      [ginit_val s recs gimp (g_init g)] None [] true false) in
+      let s2 := add_vis s1 i x in
+      let '(s3, xs) := alloc_globals s2 i me recs gimp r in
+      (s3, x :: xs)
   end.
 
 (* imported globals: Globals[k] = the exporter's GlobalInstance, nothing else is recorded *)
@@ -189,17 +217,26 @@ Definition inst_ok (s : state) (i : nat) : bool :=
   alive s i && kind_eqb (o_kind (getd s i)) KInstance && memb (me_of s i) (o_vis (getd s i))
   && is_none (o_owner (getd s (me_of s i))) && memb i (o_vis (getd s (me_of s i))).
 Definition rec_ok (s : state) (i f : nat) : bool :=
-  inst_ok s i && (f <? length (o_dir (getd s (me_of s i)))) && memb (rec_of s i f) (o_vis (getd s (me_of s i))).
+  inst_ok s i && (f <? length (o_dir (getd s (me_of s i)))) && memb (rec_of s i f) (o_vis (getd s (me_of s i)))
+  && kind_eqb (o_kind (getd s (rec_of s i f))) KFunc.
 (* holder t is one of instance i's tables/globals (own or imported): i's code can read and write it *)
 Definition holder_acc (s : state) (i t : nat) : bool :=
   inst_ok s i && (t <? length (tl (o_dir (getd s i)))) && memb (holder_of s i t) (o_vis (getd s i)).
+(* instance i may overwrite holder t: a table or a MUTABLE global *)
+Definition holder_wr (s : state) (i t : nat) : bool :=
+  holder_acc s i t && writable (o_kind (getd s (holder_of s i t))).
+(* holder h points to instance i (TABLES: involvingModuleInstances) or to i's module engine (a GLOBAL exported by i whose
+   GlobalInstance.Me is set) *)
+Definition listsb (s : state) (i h : nat) : bool :=
+  memb i (o_vis (getd s h)) || memb (me_of s i) (o_vis (getd s h)).
 (* holder h tracks instance i: it is private to its owner (only that instance points to it) or it lists i among
-   its involving instances (exported and imported TABLES do; exported/imported GLOBALS have no such list) *)
+   its involving instances (exported and imported TABLES do; GLOBALS have no such list) or it is a global that i itself
+   exports and that points to i's module engine. A global IMPORTED by i never tracks i. *)
 Definition involvedb (s : state) (i h : nat) : bool :=
-  match o_owner (getd s h) with None => memb i (o_vis (getd s h)) | Some _ => true end.
-(* h is a shared holder that lists i among its involving instances *)
+  match o_owner (getd s h) with None => listsb s i h | Some _ => true end.
+(* h is a shared holder that lists i *)
 Definition sharedb (s : state) (i h : nat) : bool :=
-  match o_owner (getd s h) with None => memb i (o_vis (getd s h)) | Some _ => false end.
+  match o_owner (getd s h) with None => listsb s i h | Some _ => false end.
 Definition holder_ok (s : state) (i t : nat) : bool := holder_acc s i t && involvedb s i (holder_of s i t).
 Definition open (s : state) (i : nat) : bool := negb (o_closed (getd s i)).
 
@@ -213,8 +250,10 @@ Record ispec := mkSpec {
   sp_impt : list (nat * nat);        (* (exporting instance, holder index): imported tables *)
   sp_nfun : nat; sp_nexp : nat; sp_npriv : nat; sp_nglob : nat; sp_size : nat;
   sp_elems : list (nat * nat * nat); (* (holder index, slot, record index): active element segments / initialisers of private globals *)
-  sp_nexpg : nat;                    (* exported mutable funcref globals (initially null) *)
-  sp_impg : list (nat * nat)         (* (exporting instance, holder index): imported globals *) }.
+  sp_expg : list gspec;              (* exported funcref globals *)
+  sp_impg : list (nat * nat);        (* (exporting instance, holder index): imported globals *)
+  sp_gelems : list (nat * nat * nat) (* (holder index, slot, holder index of an imported immutable global): element items
+                                        `global.get g` / initialisers `global.get g` of private globals *) }.
 
 Inductive op :=
 | OCompile
@@ -224,6 +263,7 @@ Inductive op :=
 | OClear (i t k : nat)
 | OGrowRef (i t f : nat)             (* i: table.grow of its table t by one slot initialised with ref.func f *)
 | OPassParam (i f j t k : nat)       (* record f of i reaches j as a parameter/result; j stores it in its holder t *)
+| OPassVal (i ts ks j t k : nat)     (* the reference i reads from its holder ts reaches j as a parameter; j stores it in its holder t *)
 | OCallExport (i f : nat)
 | OCallIndirect (i t k : nat)
 | OEnter (i : nat)                   (* a call on i is in flight (its call engine is on a goroutine stack) *)
@@ -246,10 +286,15 @@ Definition impt_ok (s : state) (p : nat * nat) : bool :=
 Definition impg_ok (s : state) (p : nat * nat) : bool :=
   let '(j, t) := p in
   let h := holder_of s j t in
-  holder_acc s j t && registered s j && open s j && kind_eqb (o_kind (getd s h)) KGlobal && is_none (o_owner (getd s h)).
+  holder_acc s j t && registered s j && open s j
+  && (kind_eqb (o_kind (getd s h)) KGlobal || kind_eqb (o_kind (getd s h)) KGlobalC) && is_none (o_owner (getd s h)).
 
 Definition set_ref (s : state) (i t k f : nat) : state :=
-  if holder_ok s i t && rec_ok s i f then set_slot s (holder_of s i t) k (Some (rec_of s i f)) else s.
+  if holder_ok s i t && holder_wr s i t && rec_ok s i f then set_slot s (holder_of s i t) k (Some (rec_of s i f)) else s.
+(* an element item / private-global initialiser `global.get g` (g an imported immutable global, holder ts) *)
+Definition copy_ref (s : state) (i t k ts : nat) : state :=
+  if holder_ok s i t && holder_wr s i t && holder_acc s i ts && kind_eqb (o_kind (getd s (holder_of s i ts))) KGlobalC
+  then set_slot s (holder_of s i t) k (slot s (holder_of s i ts) 0) else s.
 
 Definition can_instantiate (s : state) (sp : ispec) : bool :=
   alive s RUNTIME && open s RUNTIME && alive s (sp_cm sp) && kind_eqb (o_kind (getd s (sp_cm sp))) KCompiled
@@ -273,12 +318,13 @@ Definition instantiate (s : state) (sp : ispec) : state :=
     let '(s7, globs) := alloc_owned s6 ni KGlobal (repeat [None] (sp_nglob sp)) in
     let timp := map (fun p => holder_of s (fst p) (snd p)) (sp_impt sp) in
     let s8 := link_tables s7 ni timp in
-    let '(s8a, gexp) := alloc_globals s8 ni (sp_nexpg sp) in
     let gimp := map (fun p => holder_of s (fst p) (snd p)) (sp_impg sp) in
-    let s8b := link_globals s8a ni gimp in
+    let s8a := link_globals s8 ni gimp in
+    let '(s8b, gexp) := alloc_globals s8a ni nme recs gimp (sp_expg sp) in
     let s9 := upd_obj (upd_obj s8b ni (set_dir (nme :: timp ++ texp ++ tpriv ++ globs ++ gexp ++ gimp))) nme (set_dir recs) in
     let s10 := with_host (add_reg s9 RUNTIME ni) (ni :: host s9) in
-    fold_left (fun st e => let '(t, k, f) := e in set_ref st ni t k f) (sp_elems sp) s10
+    let s11 := fold_left (fun st e => let '(t, k, f) := e in set_ref st ni t k f) (sp_elems sp) s10 in
+    fold_left (fun st e => let '(t, k, ts) := e in copy_ref st ni t k ts) (sp_gelems sp) s11
   else s.
 
 Definition compile (s : state) : state :=
@@ -298,17 +344,20 @@ Definition step (s : state) (o : op) : state :=
   | OCompile => compile s
   | OInstantiate sp => instantiate s sp
   | OSetRef i t k f =>
-      if holder_acc s i t && rec_ok s i f then set_slot s (holder_of s i t) k (Some (rec_of s i f)) else s
+      if holder_wr s i t && rec_ok s i f then set_slot s (holder_of s i t) k (Some (rec_of s i f)) else s
   | OCopy i ts ks td kd =>
-      if holder_acc s i ts && holder_acc s i td
+      if holder_acc s i ts && holder_wr s i td
       then set_slot s (holder_of s i td) kd (slot s (holder_of s i ts) ks) else s
-  | OClear i t k => if holder_acc s i t then set_slot s (holder_of s i t) k None else s
+  | OClear i t k => if holder_wr s i t then set_slot s (holder_of s i t) k None else s
   | OGrowRef i t f =>
       if holder_acc s i t && rec_ok s i f && kind_eqb (o_kind (getd s (holder_of s i t))) KTable
       then upd_obj s (holder_of s i t) (fun o => set_slots (o_slots o ++ [Some (rec_of s i f)]) o) else s
   | OPassParam i f j t k =>
-      if rec_ok s i f && holder_acc s j t
+      if rec_ok s i f && holder_wr s j t
       then set_slot s (holder_of s j t) k (Some (rec_of s i f)) else s
+  | OPassVal i ts ks j t k =>
+      if holder_acc s i ts && holder_wr s j t
+      then set_slot s (holder_of s j t) k (slot s (holder_of s i ts) ks) else s
   | OCallExport _ _ | OCallIndirect _ _ _ => s
   | OEnter i => if inst_ok s i then with_flight s (me_of s i :: flight s) else s
   | OLeave => with_flight s (tl (flight s))
@@ -342,19 +391,38 @@ Definition run (s : state) (ops : list op) : state := fold_left step ops s.
        receiver imports a function defined by the sender (its module engine visibly points to the sender's)
        or sender = receiver; or when the receiving holder is a shared table that lists the SENDER among its
        involving instances (the sender imports or exports that very table).
-   Not tracked: a hand-over to an unrelated instance (F08), and ANY store into an exported/imported GLOBAL
-   (F08b): GlobalInstance has no involvingModuleInstances. *)
+     - OPassVal: the same for a reference READ from a holder of the sender (any holder: what an instance can
+       read it structurally reaches, as long as every earlier hand-over was tracked);
+     - OInstantiate: the constant initialisers of the EXPORTED globals (ref.func f / global.get of an imported
+       immutable global) when the global object points to the module engine of its exporter (g_me). An
+       IMMUTABLE global is never written afterwards, so for an importer it is a tracked channel for good:
+       importer -> global -> exporter's module engine -> the record and its code.
+   Not tracked: a hand-over to an unrelated instance (F08), a store into an IMPORTED mutable global (F35:
+   GlobalInstance has no involvingModuleInstances; its Me is the exporter's engine, not the writer's), and the
+   initialiser of an exported global that does not point to its module engine. *)
+Definition gspec_tracked (g : gspec) : bool := ginit_null (g_init g) || g_me g.
 Definition tracked (s : state) (o : op) : bool :=
   match o with
-  | OSetRef i t k f => negb (holder_acc s i t && rec_ok s i f) || involvedb s i (holder_of s i t)
-  | OCopy i ts ks td kd => negb (holder_acc s i ts && holder_acc s i td) || involvedb s i (holder_of s i td)
+  | OInstantiate sp => forallb gspec_tracked (sp_expg sp)
+  | OSetRef i t k f => negb (holder_wr s i t && rec_ok s i f) || involvedb s i (holder_of s i t)
+  | OCopy i ts ks td kd => negb (holder_acc s i ts && holder_wr s i td) || involvedb s i (holder_of s i td)
   | OGrowRef i t f => negb (holder_acc s i t && rec_ok s i f) || involvedb s i (holder_of s i t)
   | OPassParam i f j t k =>
-      negb (rec_ok s i f && holder_acc s j t)
+      negb (rec_ok s i f && holder_wr s j t)
+      || (involvedb s j (holder_of s j t) && (Nat.eqb i j || memb (me_of s i) (o_vis (getd s (me_of s j)))))
+      || sharedb s i (holder_of s j t)
+  | OPassVal i ts ks j t k =>
+      negb (holder_acc s i ts && holder_wr s j t)
       || (involvedb s j (holder_of s j t) && (Nat.eqb i j || memb (me_of s i) (o_vis (getd s (me_of s j)))))
       || sharedb s i (holder_of s j t)
   | _ => true
   end.
+
+(* the one condition the facts about IMMUTABLE globals and function records need (no hand-over has to be tracked for
+   them): every immutable exported global with a non-null initialiser points to its exporter's module engine *)
+Definition gspec_imm_ok (g : gspec) : bool := g_mut g || ginit_null (g_init g) || g_me g.
+Definition imm_ok (o : op) : bool :=
+  match o with OInstantiate sp => forallb gspec_imm_ok (sp_expg sp) | _ => true end.
 
 Fixpoint all_tracked (s : state) (ops : list op) : bool :=
   match ops with
@@ -388,13 +456,13 @@ Record mspec := mkM {
   ms_impt : list (nat * nat);  (* (module index, holder index) *)
   ms_nfun : nat; ms_nexp : nat; ms_npriv : nat; ms_nglob : nat; ms_size : nat;
   ms_elems : list (nat * nat * nat);
-  ms_nexpg : nat; ms_impg : list (nat * nat) }.
+  ms_expg : list gspec; ms_impg : list (nat * nat); ms_gelems : list (nat * nat * nat) }.
 
 Inductive hop :=
 | HCompile (m : nat) | HInst (m : nat)
 | HCallExport (m f : nat) | HCallInd (m t k : nat)
 | HSetRef (m t k f : nat) | HCopy (m ts ks td kd : nat) | HClear (m t k : nat) | HGrow (m t f : nat)
-| HPass (m f m2 t k : nat)
+| HPass (m f m2 t k : nat) | HPassVal (m ts ks m2 t k : nat)
 | HEnter (m : nat) | HLeaveRec (m f : nat) | HLeaveInd (m t k : nat)   (* continuation after the host function returns *)
 | HCloseMod (m : nat) | HCloseCompiled (m : nat) | HCloseCache | HCloseRuntime
 | HDropMod (m : nat) | HDropCompiled (m : nat) | HDropRuntime | HDropCache | HGc.
@@ -414,6 +482,9 @@ Definition resolve (l : list (option nat)) (ps : list (nat * nat)) : option (lis
 
 Definition call_pred (s : state) (v : option nat) : Z := if deref_ok s v then 0%Z else 2%Z.
 
+Definition forget (x : option nat) (s : state) : state :=
+  match x with Some i => with_host s (remove_nat i (host s)) | None => s end.
+
 Definition hstep (mods : list mspec) (h : hstate) (o : hop) : hstate * Z :=
   let s := h_st h in
   let upd_st s' := mkH s' (h_cm h) (h_inst h) (h_rt h) (h_name h) (h_fl h) (h_bind h) in
@@ -427,7 +498,8 @@ Definition hstep (mods : list mspec) (h : hstate) (o : hop) : hstate * Z :=
   match o with
   | HCompile m =>
       if fst (h_rt h) && alive s RUNTIME && open s RUNTIME && alive s ENGINE && open s ENGINE then
-        let s' := step s OCompile in
+        (* the embedder keeps ONE handle per module: the new compiled module replaces (drops) the old handle *)
+        let s' := forget (lookup (h_cm h) m) (step s OCompile) in
         (mkH s' (set_nth (h_cm h) m (Some (length (heap s)))) (h_inst h) (h_rt h) (h_name h) (h_fl h) (h_bind h), 0%Z)
       else (h, 1%Z)
   | HInst m =>
@@ -436,11 +508,12 @@ Definition hstep (mods : list mspec) (h : hstate) (o : hop) : hstate * Z :=
           match resolve (h_name h) (ms_impf ms), resolve (h_name h) (ms_impt ms), resolve (h_name h) (ms_impg ms) with
           | Some fi, Some ti, Some gi =>
               let sp := mkSpec cm fi ti (ms_nfun ms) (ms_nexp ms) (ms_npriv ms) (ms_nglob ms) (ms_size ms) (ms_elems ms)
-                               (ms_nexpg ms) gi in
+                               (ms_expg ms) gi (ms_gelems ms) in
               let free := match lookup (h_name h) m with Some i => negb (registered s i) | None => true end in
               if fst (h_rt h) && can_instantiate s sp then
                 if free then
-                  (mkH (step s (OInstantiate sp)) (h_cm h) (set_nth (h_inst h) m (Some (length (heap s)))) (h_rt h)
+                  (* ... and one handle per instance: the new instance replaces (drops) the old handle *)
+                  (mkH (forget (lookup (h_inst h) m) (step s (OInstantiate sp))) (h_cm h) (set_nth (h_inst h) m (Some (length (heap s)))) (h_rt h)
                        (set_nth (h_name h) m (Some (length (heap s)))) (h_fl h) (set_nth (h_bind h) m (h_name h)), 0%Z)
                 else
                   (* Store.Instantiate builds the instance completely (element segments are applied to imported
@@ -461,6 +534,10 @@ Definition hstep (mods : list mspec) (h : hstate) (o : hop) : hstate * Z :=
   | HPass m f m2 t k =>
       on_inst m (fun i => match lookup (nth m (h_bind h) []) m2 with
                           | Some j => (upd_st (step s (OPassParam i f j t k)), 0%Z)
+                          | None => (h, 1%Z) end)
+  | HPassVal m ts ks m2 t k =>
+      on_inst m (fun i => match lookup (nth m (h_bind h) []) m2 with
+                          | Some j => (upd_st (step s (OPassVal i ts ks j t k)), 0%Z)
                           | None => (h, 1%Z) end)
   | HEnter m =>
       match lookup (h_inst h) m with
